@@ -5,6 +5,7 @@ import SJ.Model.Number
 import SJ.Model.Marshal
 import SJ.Model.StringDec
 import SJ.GoSem.IfaceVal
+import SJ.Model.Serialize   -- framing: `readUvarint`
 set_option linter.unusedVariables false
 /-
 GoSem — a small imperative language with a big-step interpreter, the target of the Go→Lean translator
@@ -113,6 +114,12 @@ inductive Expr where
   | nilM                                    -- an empty `map[string]interface{}` (`make(map[string]interface{})`)
   | box (k : IKind) (a : Expr)              -- a uint64 / int64 / float64 / string / bool converted to `interface{}`
   | pushA (a e : Expr)                      -- `append(a, e)` for a `[]interface{}` and one `interface{}`
+  -- --- framing: begin (Expr)
+  | capTape (base : String)                 -- `cap(base.Tape)`: the size of the backing array (`St.tape`)
+  | capB (a : Expr)                         -- `cap(a)` of a byte slice, for a variable that holds its backing array up to the
+                                            -- capacity (convention of the framing block of `Deserialize` for the four
+                                            -- destination buffers on entry; the re-slice `a = a[:n]` then checks `n` against it)
+  -- --- framing: end (Expr)
   deriving Repr, Inhabited
 
 inductive Stmt where
@@ -160,6 +167,18 @@ inductive Stmt where
   | mapSetV (name : String) (k v : Expr)
       -- `m[k] = v` for a `map[string]interface{}` variable: an existing key's entry is removed, the new entry comes last
       -- (`SJ.mapInsert`; a Go map has no order, the list is compared up to order by whoever reads it)
+  -- --- framing: begin (Stmt)
+  | tapeMake (base : String) (e : Expr)
+      -- `base.Tape = make([]uint64, e)`: a fresh zeroed backing array of `e` elements, length `e`.  Go panics
+      -- (`makeslice: len out of range`) when the byte size exceeds the platform's limit, at the latest when `e` does not fit
+      -- an `int`; only the latter is modelled (exhausting the memory is not a panic and not modelled)
+  | setLenCap (base : String) (e : Expr)
+      -- `base.Tape = base.Tape[:e]`, checked against the *capacity* (the size of the backing array `St.tape`)
+  | spawn (tag : String) (captured : List (String × Expr))
+      -- `go func() { … }()` for a goroutine known by contract only: it is NOT run here.  What it was given is recorded: the
+      -- values of `captured` at the `go` statement in the variables `tag.<name>`, and `tag.started = true`.  Whoever joins
+      -- it (`wg.Wait()`) applies the contract to these (Proofs/GoFraming: `resolve`)
+  -- --- framing: end (Stmt)
   deriving Repr, Inhabited
 
 structure FunDef where
@@ -340,6 +359,32 @@ def extCall (name : String) (args : List Val) : Option (List Val) :=
       if enc.length ≤ dst.size then some [.bytes (enc.toArray ++ dst.extract enc.length dst.size), .int enc.length, .bool true]
       else some [.bytes dst, .int 0, .bool false]
     else none
+  -- --- framing: begin (extCall)
+  | [.int pos, .bytes buf] =>
+    -- a `*bytes.Buffer` is its two fields `buf`, `off` (the read position)
+    if name == "ReadUvarint" then
+      -- `x, err := binary.ReadUvarint(br)`: value, `err != nil`, new `br.off`.  Contract = `SJ.readUvarint`; on an error the
+      -- position is the end of the buffer or behind the tenth byte (nothing reads the buffer after an error)
+      if pos < 0 then none else
+      match readUvarint buf pos.toNat with
+      | some (x, p) => some [.u64 x, .bool false, .int p]
+      | none => some [.u64 0, .bool true, .int (min buf.size (pos.toNat + 10))]
+    else if name == "ReadByte" then
+      -- `c, err := br.ReadByte()`: io.EOF at the end
+      if pos < 0 then none
+      else if pos.toNat < buf.size then some [.u8 (buf.getD pos.toNat 0), .bool false, .int (pos + 1)]
+      else some [.u8 0, .bool true, .int pos]
+    else none
+  | [.int pos, .bytes buf, .int n] =>
+    if name == "BufNext" then
+      -- `data := br.Next(n)`: the next `min n br.Len()` bytes; a negative `n` is a slice-bounds panic inside the library
+      -- (not in the subset: the translated code never asks)
+      if pos < 0 ∨ n < 0 ∨ buf.size < pos.toNat then none
+      else
+        let m := min n.toNat (buf.size - pos.toNat)
+        some [.bytes (buf.extract pos.toNat (pos.toNat + m)), .int (pos + m)]
+    else none
+  -- --- framing: end (extCall)
   | _ => none
 
 /-- the value of `float64(K)` for an untyped integer constant `K` (Go converts the constant to the operand's type:
@@ -682,6 +727,14 @@ def evalE (s : St) : Expr → EOut
        | o => o)
     | .val _ => .stuck "append operand"
     | o => o
+  -- --- framing: begin (evalE)
+  | .capTape base => .val (.int s.tape.size)
+  | .capB a =>
+    match evalE s a with
+    | .val (.bytes b) => .val (.int b.size)
+    | .val _ => .stuck "cap operand"
+    | o => o
+  -- --- framing: end (evalE)
 
 /-- evaluate a list of expressions left to right -/
 def evalEs (s : St) : List Expr → Except EOut (List Val)
@@ -1024,6 +1077,30 @@ def exec1 (funs : String → Option FunDef) : (fuel : Nat) → Stmt → St → O
                | none => .stuck "receiver back")
             | .brk _ | .cont _ => .stuck "break outside loop"
             | o => o
+  -- --- framing: begin (exec1)
+  | fuel, .tapeMake base e, s =>
+    match evalE s e with
+    | .val (.u64 n) =>
+      if n.toNat < 2^63 then .normal { env := s.env.set (base ++ ".lim") (.int n.toNat), tape := Array.replicate n.toNat 0 }
+      else .panic
+    | .val (.int n) =>
+      if 0 ≤ n then .normal { env := s.env.set (base ++ ".lim") (.int n), tape := Array.replicate n.toNat 0 } else .panic
+    | .val _ => .stuck "make length"
+    | o => ofE o
+  | fuel, .setLenCap base e, s =>
+    match evalE s e with
+    | .val (.u64 k) => if k.toNat ≤ s.tape.size then .normal { s with env := s.env.set (base ++ ".lim") (.int k.toNat) } else .panic
+    | .val (.int k) => if 0 ≤ k ∧ k ≤ s.tape.size then .normal { s with env := s.env.set (base ++ ".lim") (.int k) } else .panic
+    | .val _ => .stuck "slice bound type"
+    | o => ofE o
+  | fuel, .spawn tag captured, s =>
+    match evalEs s (captured.map (·.2)) with
+    | .error o => ofE o
+    | .ok vs =>
+      match assignTargets (captured.map (fun c => tag ++ "." ++ c.1)) vs s.env with
+      | some e => .normal { s with env := e.set (tag ++ ".started") (.bool true) }
+      | none => .stuck "spawn"
+  -- --- framing: end (exec1)
 termination_by fuel st _ => (fuel, sizeOf st, 1)
 
 /-- the iterations of a `range` loop over the bytes that were in the slice when the loop started -/
